@@ -134,6 +134,26 @@ def check(h, baseline=None):
             viol('C11.c', 'adversary-changed-indications', 'server indications per token differ with/without adversary: %r vs %r'
                  % (sorted(set(inds.items()) - set(binds.items()))[:4], sorted(set(binds.items()) - set(inds.items()))[:4]))
 
+    # ---- C11.c (wire): a node acknowledges only segments it was delivered, in the role it received them in: a segment-ack
+    # with server=1 answers a segmented REQUEST from that peer with that id, server=0 a segmented RESPONSE
+    got_seg = {}
+    evs = [(f['seq'], 1, f) for f in w.rx] + [(f['seq'], 0, f) for f in w.tx]
+    evs.sort(key=lambda x: x[0])
+    for seq_, isrx, f in evs:
+        n_, a_ = txn.decode_lan_frame(f['octets'])
+        if a_ is None:
+            continue
+        if isrx:
+            if a_['type'] in (wire.T_CONF, wire.T_CACK) and a_.get('seg'):
+                got_seg[(f['node'], f['src'], a_['invoke'], a_['type'])] = seq_
+        elif a_['type'] == wire.T_SEGACK and f['node'] in h.stacks:
+            want_type = wire.T_CONF if a_['srv'] else wire.T_CACK
+            if (f['node'], f['dst'], a_['invoke'], want_type) not in got_seg:
+                other = (f['node'], f['dst'], a_['invoke'], wire.T_CACK if a_['srv'] else wire.T_CONF) in got_seg
+                viol('C11.c', 'segack-wrong-role', '%s emitted a segment-ack (server=%d, %s, invoke %d) to %s although it was never delivered a segmented %s with that id from that peer%s'
+                     % (f['node'], a_['srv'], 'negative' if a_['nak'] else 'positive', a_['invoke'], f['dst'], 'request' if a_['srv'] else 'response',
+                        ' (it WAS delivered a segmented %s: role flag confused)' % ('response' if a_['srv'] else 'request') if other else ''), confused=other)
+
     # ---- C11.d: while a server transaction is open the application is indicated at most once
     # an Abort from the requester delivered to the server closes the server transaction too
     aborts_rx = {}
